@@ -607,6 +607,74 @@ impl<W: Wd> Iterator for Script<W> {
 }
 impl<W: Wd> ExactSizeIterator for Script<W> {}
 
+/// Like `Script` but with a legal, deliberately inexact `size_hint`:
+/// `(actual - lo_slack, actual + hi_slack)` (`hi_slack = None`: no upper bound), where `actual` is
+/// the number of items before the next `None`.  Not an `ExactSizeIterator`.
+#[derive(Clone, Debug)]
+pub struct Loose<W> {
+    inner: Script<W>,
+    lo_slack: usize,
+    hi_slack: Option<usize>,
+}
+impl<W: Wd> Iterator for Loose<W> {
+    type Item = Result<W, ()>;
+    fn next(&mut self) -> Option<Self::Item> {
+        self.inner.next()
+    }
+    fn size_hint(&self) -> (usize, Option<usize>) {
+        let actual = self.inner.size_hint().0;
+        (actual.saturating_sub(self.lo_slack), self.hi_slack.map(|h| actual.saturating_add(h)))
+    }
+}
+
+struct IterFL<W: Wd>(FallibleIteratorReadWords<Loose<W>>);
+struct IterIL<W: Wd>(InfallibleIteratorReadWords<Loose<W>>);
+
+impl<W: Wd> Dyn<W> for IterFL<W> {
+    fn op(mut self: Box<Self>, op: &Op<W>) -> (String, Box<dyn Dyn<W>>) {
+        let r = &mut self.0;
+        let rd = |x: Result<Option<W>, ()>| match x {
+            Ok(o) => show_word(o),
+            Err(()) => "readerr".into(),
+        };
+        let s = match op {
+            Op::ReadS => rd(<_ as ReadWords<W, Stack>>::read(r)),
+            Op::ReadQ => rd(<_ as ReadWords<W, Queue>>::read(r)),
+            Op::ExhS => format!("{}", <_ as ReadWords<W, Stack>>::maybe_exhausted(r)),
+            Op::ExhQ => format!("{}", <_ as ReadWords<W, Queue>>::maybe_exhausted(r)),
+            Op::Raw => show_items(&r.clone().into_iter().collect::<Vec<_>>()),
+            _ => UNSUP.into(),
+        };
+        (s, self)
+    }
+    fn dup(&self) -> Box<dyn Dyn<W>> {
+        Box::new(IterFL(self.0.clone()))
+    }
+}
+
+impl<W: Wd> Dyn<W> for IterIL<W> {
+    fn op(mut self: Box<Self>, op: &Op<W>) -> (String, Box<dyn Dyn<W>>) {
+        let r = &mut self.0;
+        type Wr<W> = Result<W, ()>;
+        let rd = |x: Option<Wr<W>>| match x {
+            Some(i) => show_item(&i),
+            None => "none".into(),
+        };
+        let s = match op {
+            Op::ReadS => rd(<_ as ReadWords<Wr<W>, Stack>>::read(r).unwrap()),
+            Op::ReadQ => rd(<_ as ReadWords<Wr<W>, Queue>>::read(r).unwrap()),
+            Op::ExhS => format!("{}", <_ as ReadWords<Wr<W>, Stack>>::maybe_exhausted(r)),
+            Op::ExhQ => format!("{}", <_ as ReadWords<Wr<W>, Queue>>::maybe_exhausted(r)),
+            Op::Raw => show_items(&r.clone().into_iter().collect::<Vec<_>>()),
+            _ => UNSUP.into(),
+        };
+        (s, self)
+    }
+    fn dup(&self) -> Box<dyn Dyn<W>> {
+        Box::new(IterIL(self.0.clone()))
+    }
+}
+
 fn show_item<W: Wd>(i: &Result<W, ()>) -> String {
     match i {
         Ok(w) => hex(to_u128(*w)),
@@ -923,6 +991,21 @@ fn do_init<W: Wd>(kind: &str, seg: &[&str]) -> Init<W> {
             ["infallible", sc] => opt(parse_script::<W>(sc).map(|items| {
                 Box::new(IterI(InfallibleIteratorReadWords::new(Script { items, idx: 0 }))) as Box<dyn Dyn<W>>
             })),
+            [flavour @ ("fallible-loose" | "infallible-loose"), sc, lo, hi] => {
+                let lo_slack = parse_usize(lo);
+                let hi_slack = if *hi == "inf" { Some(None) } else { parse_usize(hi).map(Some) };
+                match (lo_slack, hi_slack) {
+                    (Some(lo_slack), Some(hi_slack)) => opt(parse_script::<W>(sc).map(|items| {
+                        let it = Loose { inner: Script { items, idx: 0 }, lo_slack, hi_slack };
+                        if *flavour == "fallible-loose" {
+                            Box::new(IterFL(FallibleIteratorReadWords::new(it))) as Box<dyn Dyn<W>>
+                        } else {
+                            Box::new(IterIL(InfallibleIteratorReadWords::new(it))) as Box<dyn Dyn<W>>
+                        }
+                    })),
+                    _ => Init::Bad,
+                }
+            }
             _ => Init::Bad,
         },
         "backend.callback" => match seg {
